@@ -9,11 +9,12 @@ use bit_set::BitSet;
 use thiserror::Error;
 
 use std::borrow::Cow;
-#[cfg(feature = "verif-hooks")]
-use crate::verif_hooks::VecSet as HashSet;
 #[cfg(not(feature = "verif-hooks"))]
 use std::collections::HashSet;
 use std::marker::PhantomData;
+
+#[cfg(feature = "verif-hooks")]
+use crate::verif_hooks::VecSet as HashSet;
 
 #[derive(Clone)]
 pub struct Pattern<L: Language> {
